@@ -382,6 +382,34 @@ func (b *Broker) release(j int, conn int) {
 	h.c.send(h.p, nil, "", 0, nil, false)
 }
 
+// releaseGlued sends several held responses as one read.
+func (b *Broker) releaseGlued(js []int, c *Conn) {
+	var rs []resp
+	b.mu.Lock()
+	for _, j := range js {
+		if j < 0 || j >= len(b.held) || b.held[j].released || b.held[j].c != c {
+			continue
+		}
+		b.held[j].released = true
+		rs = append(rs, resp{p: b.held[j].p})
+		b.s.log(Rec{Kind: "released", Conn: c.k, P: b.held[j].p, V: int64(j)})
+	}
+	b.mu.Unlock()
+	if len(rs) == 0 {
+		b.s.probe("release-noop")
+		return
+	}
+	if len(rs) == 1 {
+		c.send(rs[0].p, nil, "", 0, nil, false)
+		return
+	}
+	var raw []byte
+	for _, r := range rs {
+		raw = append(raw, EncodeB2C(r.p)...)
+	}
+	c.sendGlued(rs[len(rs)-1].p, raw, rs[:len(rs)-1], false)
+}
+
 // runScript executes scripted broker->client item i.
 func (s *Sim) runScript(i int) {
 	o := s.sc.Script[i]
@@ -408,6 +436,8 @@ func (s *Sim) runScript(i int) {
 		c.send(nil, raw, o.Class, 0, o.Frag, o.EOFAfter)
 	case "release":
 		s.broker.release(o.Held, o.Conn)
+	case "releaseglued":
+		s.broker.releaseGlued(o.Helds, c)
 	case "cut":
 		c.cut(false, "script")
 	}
